@@ -34,6 +34,17 @@ DESCRIPTORS = {
 LOCATION_NAME = re.compile(r"(^|_)(path|uri|url|location|dir|directory)$")
 
 
+_PRESERVING = ("to_string", "to_owned", "clone", "as_ref", "as_str", "deref", "into", "from", "branch", "from_residual", "unwrap",
+               "unwrap_or", "unwrap_or_default", "unwrap_or_else", "expect", "ok", "format", "must_use", "borrow", "to_vec", "as_bytes",
+               "to_json", "to_value", "encode_to_vec", "new_display", "new_debug", "new", "join", "push_str", "to_lowercase", "to_uppercase")
+
+
+def _value_preserving(t):
+    """Calls whose result is (a rendering of) their argument: the origin analysis looks through these and stops at the rest."""
+    last = name_of(t).split("::")[-1].split("<")[0]
+    return last in _PRESERVING or name_of(t).startswith("serde_json::")
+
+
 def run(db, chk):
     R = "ADT-relative"
     chk.rule(R, "persisted descriptors carry no absolute location field beyond the reviewed relative ones")
@@ -152,6 +163,46 @@ def run(db, chk):
             chk.ob(R4, "external-file:%s" % f.path.split("::{closure")[0].split("::")[-1], not bad,
                    "%s stores ExternalFile.path from %s" % (f.path.split("::{closure")[0], bad or "a relative name (no location producer in its origin)"), f.loc(s["ln"]))
     chk.floor(R4, "ExternalFile constructions outside plain conversions", nsites, 1)
+    # index / data file footers: what a writer puts into the file's own key-value metadata travels with the copy, so it may not
+    # name a location either (a reader that opened `index.idx` through the copied root would follow it back to the original)
+    R5 = "ORIGIN-file-metadata"
+    chk.rule(R5, "values given to FileWriter::add_schema_metadata do not derive from an object-store path, a table URI or a directory producer")
+    msites = 0
+    for f in sorted(db.fns.values(), key=lambda f: (f.file, f.line)):
+        if not f.focus or "/src/" not in f.file:
+            continue
+        c = f.cfg
+        for b, t in c.calls():
+            if not name_of(t).endswith("FileWriter::add_schema_metadata") or len(t["args"]) < 3:
+                continue
+            msites += 1
+            chk.analysed(f)
+            bad = set()
+            # follow the value through captured variables into the enclosing functions
+            work, seen = [(f, c.op_origins(t["args"][2], transparent=_value_preserving))], set()
+            while work:
+                g, o = work.pop()
+                bad |= {x[1] for x in o if x[0] in ("via", "call") and x[1] and any(l in x[1] for l in LOC)}
+                bad |= {"." + x[1] for x in o if x[0] == "field" and x[1] in ("base", "uri", "base_dir")}
+                for x in o:
+                    if x[0] != "upvar" or (g.id, x[1]) in seen:
+                        continue
+                    seen.add((g.id, x[1]))
+                    par = db.fns.get(g.parent) if g.parent else None
+                    while par is not None:
+                        ls = [i for i, l in enumerate(par.locals) if l.get("name") == x[1]]
+                        if ls:
+                            for l in ls:
+                                if "path::Path" in (par.locals[l].get("ty") or ""):
+                                    bad.add("%s: %s" % (x[1], par.locals[l]["ty"]))
+                                if par.focus:
+                                    work.append((par, par.cfg.origins(l, transparent=_value_preserving)))
+                            break
+                        par = db.fns.get(par.parent) if par.parent else None
+            key = t["args"][1].get("cdef") or t["args"][1].get("v") or "?"
+            chk.ob(R5, "metadata:%s:%s" % (f.root().path.split("::")[-1], str(key).split("::")[-1]), not bad,
+                   "%s writes file metadata `%s` from %s" % (f.root().path, str(key).split("::")[-1], sorted(bad) or "values without a location in their origin"), f.loc(t["ln"]))
+    chk.floor(R5, "add_schema_metadata sites", msites, 5)
     dp = db.one(r"^io::deletion::deletion_file_path$", file="lance-table/src/io/deletion.rs")
     chk.analysed(dp)
     e = dp.cfg.origins(0, transparent=lambda t: True)
